@@ -10,7 +10,7 @@
    calls of the exporter function made by the model of retrySender.Send, [verdict_of] the class of
    the error it returns.  [nth_error (steps_of sc script) k = Some st] reads "attempt k is made
    and st records it". *)
-From Verif Require Import Common.Base Generated.C05BackoffValidate C05.Model C05.Proofs C05.Proofs2.
+From Verif Require Import Common.Base Generated.C05BackoffValidate Generated.C05RetryGo C05.Model C05.Proofs C05.Proofs2 C05.Tie.
 Local Open Scope Z_scope.
 
 (* ---- clause 1: retried if and only if ... ---------------------------------------------------------- *)
@@ -104,6 +104,42 @@ Theorem partial_found_iff_present : forall s e,
   is_some (partial_of s e) = occurs (is_partial_layer s) e /\
   (forall rem, partial_of s e = Some rem -> occursP (fun l => l = LPartial s rem) e).
 Proof. exact (fun s e => conj (partial_of_occurs s e) (partial_of_witness s e)). Qed.
+
+(* error types with their OWN As / Is methods (ECustom), as the Go documentation of errors.As specifies:
+   a node matches a target type if its As method answers true for it.  The theorems above (permanent_anywhere,
+   shutdown_anywhere, throttle/partial_found_iff_present) hold for them with "occurs" counting such claims.  In
+   particular: an error whose As method claims to be permanent is permanent (hence never retried, by
+   no_attempt_after_verdict) wherever it sits in the tree; one that claims to be a shutdown error is
+   shutdown-classified; one that claims nothing is transparent; an Is method has no influence at all. *)
+Theorem claim_permanent : forall ls b e, In LPerm ls -> is_permanent (ECustom ls b e) = true.
+Proof. exact Proofs.claim_permanent. Qed.
+
+Theorem claim_shutdown : forall ls b e, In LShutdown ls -> is_shutdown (ECustom ls b e) = true.
+Proof. exact Proofs.claim_shutdown. Qed.
+
+Theorem claim_nothing_transparent : forall A (f : layer -> option A) b e,
+  find_layer f (ECustom [] b e) = find_layer f e.
+Proof. exact (fun A f b e => @Proofs.claim_nothing_transparent A f b e). Qed.
+
+Theorem is_method_irrelevant : forall A (f : layer -> option A) ls b b' e,
+  find_layer f (ECustom ls b e) = find_layer f (ECustom ls b' e).
+Proof. exact (fun A f ls b b' e => @Proofs.is_method_irrelevant A f ls b b' e). Qed.
+
+(* the error returned by Send is shutdown-classified (so that a persistent queue keeps the request) iff the run was
+   interrupted by shutdown OR the exporter's own last error is / claims to be shutdown-classified; it is
+   permanent iff the exporter's last error is / claims to be permanent *)
+Theorem final_is_shutdown_iff : forall sc script,
+  final_is_shutdown sc script = true <->
+  verdict_of sc script = VShutdown \/
+  (verdict_of sc script <> VOk /\ verdict_of sc script <> VPending /\
+   is_shutdown (last_err (steps_of sc script)) = true).
+Proof. exact final_is_shutdown_iff_l. Qed.
+
+Theorem final_is_permanent_iff : forall sc script,
+  final_is_permanent sc script = true <->
+  (verdict_of sc script <> VOk /\ verdict_of sc script <> VPending /\
+   is_permanent (last_err (steps_of sc script)) = true).
+Proof. exact final_is_permanent_iff_l. Qed.
 
 (* ---- clause 3: the wait ------------------------------------------------------------------------------- *)
 
@@ -255,6 +291,31 @@ Theorem every_waiting_request_gets_shutdown : forall c timeout t rs i r k st,
   final_is_shutdown sc (rq_script r) = true.
 Proof. exact every_waiting_request_gets_shutdown_l. Qed.
 
+(* ---- obligations tying the hand-written model to the Go source as translated by T1 on this run (C05/Tie.v) ---- *)
+Theorem tie_backoff_stop : backoff_stop = Stop.
+Proof. exact Tie.tie_backoff_stop. Qed.
+
+Theorem tie_timeout_validate : forall t, timeout_validate t = None <-> timeout_ok t = true.
+Proof. exact Tie.tie_timeout_validate. Qed.
+
+Theorem tie_default_timeout : timeout_ok default_timeout = true /\ default_timeout <> 0.
+Proof. exact Tie.tie_default_timeout. Qed.
+
+Theorem tie_is_permanent : forall found, IsPermanent_go true found = false /\ IsPermanent_go false found = found.
+Proof. exact Tie.tie_is_permanent. Qed.
+
+Theorem tie_wrapper_types :
+  forallb plain_wrapper [throttleRetry_methods; shutdownErr_methods; permanent_methods;
+                         Logs_methods; Traces_methods; Metrics_methods] = true.
+Proof. exact Tie.tie_wrapper_types. Qed.
+
+Theorem tie_signal_errors_carry_data : forallb (has m_Data) [Logs_methods; Traces_methods; Metrics_methods] = true.
+Proof. exact Tie.tie_signal_errors_carry_data. Qed.
+
+Theorem tie_requests_handle_errors :
+  forallb (has m_OnError) [logsRequest_methods; tracesRequest_methods; metricsRequest_methods] = true.
+Proof. exact Tie.tie_requests_handle_errors. Qed.
+
 (* ---- per-attempt timeout -------------------------------------------------------------------------------------- *)
 Theorem timeout_per_attempt : forall sc script k st,
   nth_error (steps_of sc script) k = Some st ->
@@ -274,6 +335,12 @@ Print Assumptions permanent_in_combination.
 Print Assumptions shutdown_anywhere.
 Print Assumptions throttle_found_iff_present.
 Print Assumptions partial_found_iff_present.
+Print Assumptions claim_permanent.
+Print Assumptions claim_shutdown.
+Print Assumptions claim_nothing_transparent.
+Print Assumptions is_method_irrelevant.
+Print Assumptions final_is_shutdown_iff.
+Print Assumptions final_is_permanent_iff.
 Print Assumptions wait_lower_bound.
 Print Assumptions wait_envelope.
 Print Assumptions next_start.
@@ -291,4 +358,11 @@ Print Assumptions sends_independent.
 Print Assumptions fresh_backoff_every_request.
 Print Assumptions no_attempt_after_stop_any_request.
 Print Assumptions every_waiting_request_gets_shutdown.
+Print Assumptions tie_backoff_stop.
+Print Assumptions tie_timeout_validate.
+Print Assumptions tie_default_timeout.
+Print Assumptions tie_is_permanent.
+Print Assumptions tie_wrapper_types.
+Print Assumptions tie_signal_errors_carry_data.
+Print Assumptions tie_requests_handle_errors.
 Print Assumptions timeout_per_attempt.
